@@ -345,3 +345,18 @@ Proof.
   - apply N.leb_le in E. lia.
   - lia.
 Qed.
+
+(* input is never withheld while output is being produced: whenever poll reports stdin writable (and it is
+   still open, i.e. input remains), the very next call is the write of the next chunk -- whatever the other two
+   streams report *)
+Theorem writable_stdin_is_written : forall s pdl ovf cnt rin rout rerr,
+  pc s = PPoll pdl ovf -> c_in (cm s) = true -> (cnt <> 0%N \/ ovf = false) ->
+  test rin (N.lor POLLOUT (N.lor POLLHUP POLLERR)) = true ->
+  exists s', step s (RPoll cnt rin rout rerr) = (s', Call (KWrite (firstn (N.to_nat WRITE_SIZE) (c_input (cm s))))).
+Proof.
+  intros s pdl ovf cnt rin rout rerr Hpc Hin Hc Hr. unfold step. rewrite Hpc.
+  assert (negb (cnt =? 0)%N || negb ovf = true) as ->.
+  { destruct Hc as [Hc| ->]; [|apply orb_true_r]. apply N.eqb_neq in Hc. rewrite Hc. reflexivity. }
+  unfold after_flags. rewrite Hr. cbn [negb andb]. unfold with_flags, io_in. rewrite Hin. cbn [andb].
+  eexists. reflexivity.
+Qed.
